@@ -353,7 +353,7 @@ class C06(ProbeMixin, HistProp):
 
     def generate(self, rng, tier):
         cases = super().generate(rng, tier)
-        cases.extend(self.direct_probes(rng, 40 if tier == 'quick' else 400))
+        cases.extend(self.direct_probes(rng, 200 if tier == 'quick' else 1500))
         return cases
 
     def direct_probes(self, rng, n):
@@ -441,7 +441,7 @@ class C06(ProbeMixin, HistProp):
                     dm.s.depth = 4           # growing it makes a fresh contiguous buffer
                 elif c < 0.7:
                     dm.s.depth = 1
-                if sub.random() < 0.2 and name not in EMPTY_UNSUPPORTED:
+                if sub.random() < 0.3 and name not in EMPTY_UNSUPPORTED:
                     dm = dm.i > 100             # nothing to derive from: an empty selection (fast paths for `no rows`)
                 problem = None
                 try:
@@ -540,7 +540,8 @@ class C09(ProbeMixin, HistProp):
         for k in range(n):
             sub = random.Random(rng.randrange(1 << 30))
             problem = None
-            kind = sub.choice(['row', 'row_neg', 'row_sorted', 'dict', 'series', 'reused_row', 'dict_columns', 'series_zero'])
+            kind = sub.choice(['row', 'row_neg', 'row_sorted', 'dict', 'series', 'reused_row', 'dict_columns', 'series_zero',
+                               'last_row_follows'])
             with warnings.catch_warnings():
                 warnings.simplefilter('ignore')
                 try:
@@ -579,6 +580,22 @@ class C09(ProbeMixin, HistProp):
                                 list(r.x), list(r.z), row.x)
                         if list(r0.x)[3] == 77:
                             problem = 'the earlier result of a << row changed with the source table'
+                    elif kind == 'last_row_follows':
+                        # dm[-1] denotes the last row: after rows before it were deleted (or the table was reordered in
+                        # place) a << row still appends one row, holding what the Row itself reads at that moment
+                        src = ops.sort(b, by=b.x) if sub.random() < 0.5 else b
+                        row = src[-sub.randint(1, 2)]
+                        r0 = a << row
+                        del src[0]
+                        if sub.random() < 0.5:
+                            src.x[len(src) - 1] = 55
+                        want = (row.x, row.z)
+                        r = a << row
+                        if len(r) != 4 or (list(r.x)[-1], list(r.z)[-1]) != want:
+                            problem = ('a << dm[-k] after del dm[0]: %d rows, last row x=%r z=%r, the Row reads %r'
+                                       % (len(r), list(r.x)[-1], list(r.z)[-1], want))
+                        if len(r0) != 4:
+                            problem = 'a << dm[-k] has %d rows' % len(r0)
                     elif kind == 'dict_columns':
                         # dict values that are column objects of another table count as sequences of their cells
                         c = DataMatrix(length=2)
